@@ -20,6 +20,8 @@ package actor
 //     (a wire round trip) and invokes the REAL relocateBatchHandler of the target node's actorSystem; the
 //     reply is mapped to (response, error) exactly as remoteclient.client.RelocateBatch does
 //     (*internalpb.Error -> error).  A per-call hook lets the explorer inject peer failures.
+//     RemoteSpawn supports the one request the relocation path can issue (a singleton spawn forwarded to
+//     the coordinator) and performs the singleton branch of the real remote-spawn handler on the target.
 //     RemoteAsk / RemoteTell honour ctx and the timeout (see C35).
 //   * cluster.Store -> the repository's own cluster.MemoryStore.
 
